@@ -311,7 +311,7 @@ def run_check(prop_id, tier, seed, replay=None, workers=None, keep=False):
     if not replay:
         anchors = getattr(mod, "ANCHOR_FILES", [])
         cov = {
-            "evaluations": int(done),
+            "evaluations": int(counters.get(getattr(mod, "EVAL_COUNTER", ""), 0) or done),
             "distinct_nontrivial": int(len(nontrivial)),
             "rule": getattr(mod, "RULE", ""),
             "samples": samples[:6] if samples else [cases[0]],
